@@ -39,3 +39,9 @@ Proof.
   intros a g es rest c env s av Hav. split; [apply (assess_missing_address a g es rest c env s av Hav) | apply (assess_present_address a g es rest c env s av Hav)].
 Qed.
 Print Assumptions C22_missing_address.
+
+(* ---- non-vacuity: concrete non-trivial programs and traces meeting the hypotheses above (proofs/GFIWitness.v) ---- *)
+From Proofs Require Import GFIWitness.
+Example C22_hypotheses_met : wft ex_g ex_t /\ length (t_choices ex_t) = 7%nat.
+Proof. exact (conj ex_wft ex_nontrivial). Qed.
+Print Assumptions C22_hypotheses_met.
